@@ -38,7 +38,7 @@ func popKeyFunc(cmd []string) (internal.KeyExtractionFuncResult, error) {
 	return internal.KeyExtractionFuncResult{
 		Channels:  make([]string, 0),
 		ReadKeys:  make([]string, 0),
-		WriteKeys: cmd[1:],
+		WriteKeys: cmd[1:2], // cmd[2], when present, is the count
 	}, nil
 }
 
